@@ -1,5 +1,6 @@
 import ConserveModel.Driver.StoreIO
 import ConserveModel.Conc
+import ConserveModel.Invariants
 /-
 Stateful part of the driver: a current abstract store and source listing, and requests
 that run the model's programs on them.
@@ -105,6 +106,11 @@ def step (st : DState) (toks : List String) : Option (DState × List String) :=
     | some e => some ({ st with src := st.src ++ [e] }, [])
     | none => some (st, ["bad-op"])
   | ["dump"] => some (st, dumpStore st.store)
+  | ["check", "conforms"] =>
+    let bad := (bandIdsOf st.store).filter fun b => !bandConforms blake2bHex st.store b
+    some (st, [toString (Conforms blake2bHex st.store) ++
+      (if bad.isEmpty then "" else " bands:" ++ ",".intercalate (bad.map bandName)) ++
+      (if blocksConform blake2bHex st.store then "" else " blocks")])
   | "backup" :: me :: mb :: sc :: ow :: crash :: faults =>
     match me.toNat?, mb.toNat?, sc.toNat?, parseCrash crash, faults.mapM parseFault with
     | some me, some mb, some sc, some crash, some faults =>
